@@ -35,8 +35,8 @@ TRUSTED_BASE = ["CPython ast", "import-table callee resolution", "def-use recons
 
 READ_MODES = {"r", "rb", "rt", "br", "tr"}
 OPEN_FUNCS = {"open", "io.open", "io.open_code", "codecs.open", "gzip.open", "bz2.open", "lzma.open", "tarfile.open",
-              "zipfile.ZipFile", "os.fdopen", "builtins.open", "tarfile.TarFile.open", "io.FileIO", "shelve.open",
-              "dbm.open", "sqlite3.connect", "tarfile.TarFile"}
+              "zipfile.ZipFile", "os.fdopen", "builtins.open", "tarfile.TarFile.open", "io.FileIO",
+              "dbm.open", "tarfile.TarFile"}
 FORBIDDEN_FUNCS_PREFIX = ("shutil.", "tempfile.", "subprocess.", "mmap.", "fileinput.", "ctypes.cdll", "pty.", "socket.")
 FORBIDDEN_FUNCS = {
     "os.open", "os.remove", "os.unlink", "os.rename", "os.renames", "os.replace", "os.truncate", "os.ftruncate",
@@ -46,6 +46,8 @@ FORBIDDEN_FUNCS = {
     "os.posix_spawn", "os.sendfile", "os.copy_file_range", "logging.FileHandler", "logging.handlers.RotatingFileHandler",
     "logging.handlers.TimedRotatingFileHandler", "logging.handlers.WatchedFileHandler", "pickle.dump", "json.dump",
     "marshal.dump", "os.putenv", "os.unsetenv", "os.chdir", "os.chroot",
+    # open read-write and create the file by default (no "mode" argument to inspect)
+    "sqlite3.connect", "shelve.open", "dbm.gnu.open", "dbm.ndbm.open", "dbm.dumb.open",
 }
 FORBIDDEN_METHODS = {
     "write_text", "write_bytes", "unlink", "rename", "rmdir", "mkdir", "touch", "chmod", "lchmod", "symlink_to",
